@@ -1,5 +1,462 @@
-//! C18 harness — to be written (see /verif/mc/HARNESS_GUIDE.md).
+//! C18 — one-hot encoding replaces categorical columns in place and keeps all other data; the
+//! category mapper's maps are mutually inverse.
+//!
+//! E1 (choice-tree exploration of the real `OneHotEncoder`):
+//!  * `layout`  every subset of categorical columns x every category-count vector x orderings of the
+//!              index list x code / row schemes x matrix backends, judged by a reference encoder
+//!              written from the statement;
+//!  * `rgs`     every first-appearance pattern (restricted growth string) of the categorical
+//!              columns for small n;
+//!  * `unseen`  every cell of a categorical column replaced by a value not seen during fitting ->
+//!              transform must return an error;
+//!  * `nonint`  every cell of a categorical column replaced by a non-integer value -> fit must
+//!              return an error.
+//! E2 (explicit-state search over category streams): `CategoryMapper`, see `mapper.rs`.
+
+mod enc;
+mod mapper;
+
+use enc::*;
+use mapper::{MapperModel, Ty};
+use mc_core::{self as mc, json, ExtraResult, Harness, Job, Plan, Tier};
+
+struct C18;
+
+/// |v - nearest integer| below this is the zone around the library's documented tolerance
+/// (`ERROR_MARGIN` = 0.001) in which the harness takes no position.
+const MARGIN_ZONE: f64 = 0.0015;
+
+/// What `as u16` does to a float (saturating truncation) — used ONLY to name the input class of an
+/// unseen value (does it collapse onto a seen code?), never for a verdict.
+fn sat_trunc_u16(v: f64) -> f64 {
+    if v.is_nan() || v <= 0.0 {
+        0.0
+    } else if v >= 65535.0 {
+        65535.0
+    } else {
+        v.trunc()
+    }
+}
+
+fn draw_ks(m: usize, kmax: usize) -> Vec<usize> {
+    (0..m).map(|_| 1 + mc::choose(kmax)).collect()
+}
+
+fn layout_counters(p: usize, cats: &[usize], ks: &[usize], rows: &Rows) {
+    mc::count("layout_cases");
+    let m = cats.len();
+    if m >= 2 && cats[1] + 1 < p && !cats.contains(&(cats[1] + 1)) {
+        mc::count("plain_column_after_two_categoricals");
+    }
+    if cats.windows(2).any(|w| w[1] == w[0] + 1) {
+        mc::count("adjacent_categoricals");
+    }
+    if m == p {
+        mc::count("all_columns_categorical");
+    }
+    if m == 0 {
+        mc::count("no_categorical_column");
+    }
+    if ks.iter().any(|k| *k == 1) {
+        mc::count("single_category_column");
+    }
+    if cats.iter().any(|c| {
+        let f = first_appearance(rows, *c);
+        f.windows(2).any(|w| w[0] > w[1])
+    }) {
+        mc::count("first_appearance_not_numeric_order");
+    }
+    if layout_class(p, cats, ks) == "column-follows-non-first-categorical" {
+        mc::count("class_column_follows_non_first_categorical");
+    } else if m >= 2 {
+        mc::count("class_several_categoricals_other");
+    }
+}
+
+fn run_layout(job: &Job) {
+    let (p, mask, kmax, full, nbe, seed) = (job.u("p"), job.u("mask"), job.u("kmax"), job.u("full"), job.u("backends"), job.u("seed") as u64);
+    let cats = bits(mask, p);
+    let m = cats.len();
+    let ks = draw_ks(m, kmax);
+    let ord = order(m, full, mc::choose(n_orders(m, full)));
+    let cs = mc::choose(N_CODE_SCHEMES);
+    let rs = mc::choose(N_ROW_SCHEMES);
+    let be = BACKENDS[mc::choose(nbe)];
+    let rows = layout_rows(p, &cats, &ks, cs, rs, seed);
+    let given: Vec<usize> = ord.iter().map(|i| cats[*i]).collect();
+    layout_counters(p, &cats, &ks, &rows);
+    let out = check_fit_transform(be, &rows, &cats, &given);
+    if m >= 1 {
+        mc::nontrivial();
+    }
+    if let Some(o) = &out {
+        mc::outcome(digest_rows(o));
+    } else {
+        mc::outcome(0xdead);
+    }
+    mc::describe(|| describe_case(be, &rows, &cats, &given, &out));
+}
+
+fn run_rgs(job: &Job) {
+    let (p, mask, n, nbe, seed) = (job.u("p"), job.u("mask"), job.u("n"), job.u("backends"), job.u("seed") as u64);
+    let cats = bits(mask, p);
+    let m = cats.len();
+    // one restricted growth string per categorical column: a_0 = 0, a_r <= max(a_0..a_{r-1}) + 1
+    let mut labels: Vec<Vec<usize>> = Vec::new();
+    for _ in 0..m {
+        let mut a = vec![0usize];
+        let mut mx = 0;
+        for _ in 1..n {
+            let v = mc::choose(mx + 2);
+            mx = mx.max(v);
+            a.push(v);
+        }
+        labels.push(a);
+    }
+    let rev = m >= 2 && mc::choose(2) == 1;
+    let cs = mc::choose(N_CODE_SCHEMES);
+    let be = BACKENDS[mc::choose(nbe)];
+    let rows = rgs_rows(p, &cats, &labels, n, cs, seed);
+    let given: Vec<usize> = if rev { cats.iter().rev().copied().collect() } else { cats.clone() };
+    let ks: Vec<usize> = labels.iter().map(|a| a.iter().max().unwrap() + 1).collect();
+    mc::count("rgs_cases");
+    if ks.iter().any(|k| *k >= 4) {
+        mc::count("rgs_four_or_more_categories");
+    }
+    if labels.iter().any(|a| a.windows(2).any(|w| w[1] < w[0])) {
+        mc::count("rgs_category_revisited");
+    }
+    let out = check_fit_transform(be, &rows, &cats, &given);
+    mc::nontrivial();
+    mc::outcome(out.as_ref().map(digest_rows).unwrap_or(0xdead));
+    mc::describe(|| describe_case(be, &rows, &cats, &given, &out));
+}
+
+/// The 12 candidate replacement values for cell (r, col) of a categorical column whose seen codes
+/// are `seen`; `other` = codes of a neighbouring categorical column.
+fn unseen_candidate(which: usize, seen: &[f64], other: &[f64]) -> f64 {
+    let mex = (0..).map(|x| x as f64).find(|x| !seen.contains(x)).unwrap();
+    let mx = seen.iter().cloned().fold(0.0, f64::max);
+    let s0 = seen[0];
+    let sl = *seen.last().unwrap();
+    match which {
+        0 => mex,
+        1 => (mx + 1.0).min(65535.0),
+        2 => 65535.0,
+        3 => 0.0,
+        4 => other.iter().cloned().find(|x| !seen.contains(x)).unwrap_or(mex),
+        5 => s0 + 0.5,
+        6 => sl + 0.75,
+        7 => mex + 0.5,
+        8 => -1.0,
+        9 => -0.5,
+        10 => 70000.0,
+        _ => s0 + 0.002,
+    }
+}
+const N_UNSEEN: usize = 12;
+
+fn run_unseen(job: &Job) {
+    let (p, mask, kmax, nbe, seed) = (job.u("p"), job.u("mask"), job.u("kmax"), job.u("backends"), job.u("seed") as u64);
+    let cats = bits(mask, p);
+    let m = cats.len();
+    let ks = draw_ks(m, kmax);
+    let rev = m >= 2 && mc::choose(2) == 1;
+    let cs = mc::choose(N_CODE_SCHEMES);
+    let be = BACKENDS[mc::choose(nbe)];
+    let rows = layout_rows(p, &cats, &ks, cs, 1, seed);
+    let n = rows.len();
+    let i = mc::choose(m);
+    let r = mc::choose(n);
+    let which = mc::choose(N_UNSEEN);
+    let col = cats[i];
+    let seen = first_appearance(&rows, col);
+    let other = if m >= 2 { first_appearance(&rows, cats[(i + 1) % m]) } else { Vec::new() };
+    let v = quant(be, unseen_candidate(which, &seen, &other));
+    if seen.iter().any(|s| (s - v).abs() < MARGIN_ZONE) {
+        // the candidate is (after rounding to the element type) a seen code or within the library's
+        // tolerance of one: not an unseen value
+        mc::count("unseen_candidate_is_seen");
+        return;
+    }
+    let invalid = v < 0.0 || v > 65535.0 || v.fract() != 0.0;
+    if v.fract() != 0.0 && (v - v.round()).abs() < MARGIN_ZONE {
+        mc::count("unseen_candidate_in_margin_zone");
+        return;
+    }
+    let class = if !invalid {
+        "unseen-integer-code"
+    } else if seen.contains(&sat_trunc_u16(v)) {
+        "unseen-invalid-code-collapsing-onto-seen-code"
+    } else {
+        "unseen-invalid-code"
+    };
+    let given: Vec<usize> = if rev { cats.iter().rev().copied().collect() } else { cats.clone() };
+    let enc = match guarded_fit(be, &rows, &given) {
+        FitOutcome::Ok(e) => e,
+        _ => {
+            // reported by the layout jobs (same matrices); nothing to transform here
+            mc::count("unseen_fit_failed");
+            return;
+        }
+    };
+    let mut x2 = rows.clone();
+    x2[r][col] = v;
+    let head = || format!("{} p={} categorical={:?} fitted on x={}; transform of x with x[{}][{}]={} (seen codes of that column: {:?})", be.name(), p, given, fmt_rows(&rows), r, col, v, seen);
+    match mc::guard(|| be.transform(&enc, &x2)) {
+        Err(pi) => {
+            mc::violation(format!("onehot.transform:{}:panic", class), format!("{}: panicked instead of returning an error: {}", head(), pi.brief()));
+            mc::outcome(2);
+        }
+        Ok(Ok(o)) => {
+            mc::violation(
+                format!("onehot.transform:{}:accepted", class),
+                format!("{}: returned Ok (row {} encoded as {:?}) instead of an error", head(), r, o.get(r)),
+            );
+            mc::outcome(1);
+        }
+        Ok(Err(_)) => {
+            mc::count("unseen_rejected");
+            mc::outcome(0);
+        }
+    }
+    match class {
+        "unseen-integer-code" => mc::count("unseen_integer_cases"),
+        "unseen-invalid-code" => mc::count("unseen_invalid_cases"),
+        _ => mc::count("unseen_collapsing_cases"),
+    }
+    mc::nontrivial();
+    mc::describe(|| json!({"backend": be.name(), "fitted_on": rows, "categorical_columns_as_given": given, "transformed": x2, "changed_cell": [r, col], "unseen_value": v, "class": class}));
+}
+
+const NONINT_DELTAS: [f64; 8] = [0.5, 0.25, 0.75, 0.01, 0.002, -0.5, 0.99, 0.0005];
+
+fn run_nonint(job: &Job) {
+    let (p, mask, kmax, nbe, seed) = (job.u("p"), job.u("mask"), job.u("kmax"), job.u("backends"), job.u("seed") as u64);
+    let cats = bits(mask, p);
+    let m = cats.len();
+    let ks = draw_ks(m, kmax);
+    let rev = m >= 2 && mc::choose(2) == 1;
+    let cs = mc::choose(N_CODE_SCHEMES);
+    let be = BACKENDS[mc::choose(nbe)];
+    let mut rows = layout_rows(p, &cats, &ks, cs, 1, seed);
+    let n = rows.len();
+    let i = mc::choose(m);
+    let r = mc::choose(n);
+    let delta = mc::pick(&NONINT_DELTAS);
+    let col = cats[i];
+    let v = quant(be, rows[r][col] + delta);
+    let dist = (v - v.round()).abs();
+    if dist == 0.0 {
+        mc::count("nonint_candidate_rounds_to_integer");
+        return;
+    }
+    rows[r][col] = v;
+    let given: Vec<usize> = if rev { cats.iter().rev().copied().collect() } else { cats.clone() };
+    let res = guarded_fit(be, &rows, &given);
+    if dist < MARGIN_ZONE {
+        // within (1.5x) the library's documented ERROR_MARGIN of an integer: observed, not judged
+        match res {
+            FitOutcome::Ok(_) => mc::count("near_integer_within_margin_accepted_by_fit"),
+            _ => mc::count("near_integer_within_margin_rejected_by_fit"),
+        }
+        return;
+    }
+    let head = || format!("{} p={} categorical={:?} x={} (x[{}][{}]={} is not an integer)", be.name(), p, given, fmt_rows(&rows), r, col, v);
+    match res {
+        FitOutcome::Panic(pi) => {
+            mc::violation("onehot.fit:non-integer-value:panic", format!("{}: fit panicked instead of returning an error: {}", head(), pi.brief()));
+            mc::outcome(2);
+        }
+        FitOutcome::Ok(_) => {
+            mc::violation("onehot.fit:non-integer-value:accepted", format!("{}: fit returned Ok instead of an error", head()));
+            mc::outcome(1);
+        }
+        FitOutcome::Err(_) => {
+            mc::count("nonint_rejected");
+            mc::outcome(0);
+        }
+    }
+    if v < 0.0 {
+        mc::count("nonint_negative");
+    }
+    mc::nontrivial();
+    mc::describe(|| json!({"backend": be.name(), "x": rows, "categorical_columns_as_given": given, "non_integer_cell": [r, col], "value": v}));
+}
+
+fn run_mapper_replay(job: &Job) {
+    let ty = Ty::parse(job.s("ty"));
+    let letters = job.u("letters");
+    let stream: Vec<u8> = job.params["stream"].as_array().map(|a| a.iter().map(|x| x.as_u64().unwrap_or(0) as u8).collect()).unwrap_or_default();
+    for v in mapper::check_letters(ty, letters, &stream, true) {
+        mc::violation(v.site, v.what);
+    }
+    mc::nontrivial();
+    mc::outcome(mc::hash::h_bytes(&stream));
+    mc::describe(|| json!({"type": ty.name(), "letters": letters, "stream_of_letter_indices": stream}));
+}
+
+fn masks_simplest_first(p: usize) -> Vec<usize> {
+    let mut v: Vec<usize> = (0..1usize << p).collect();
+    v.sort_by_key(|m| (m.count_ones(), *m));
+    v
+}
+
+impl Harness for C18 {
+    fn id(&self) -> &'static str {
+        "C18"
+    }
+
+    fn plan(&self, tier: Tier, seed: u64) -> Plan {
+        let t = tier.is_thorough();
+        let mut jobs = Vec::new();
+        let nbe = BACKENDS.len();
+        // ---- layout: every subset of categorical columns
+        let (p_all, kmax, full) = if t { (8, 3, 4) } else { (6, 3, 3) };
+        for p in 1..=p_all {
+            for mask in masks_simplest_first(p) {
+                jobs.push(Job::new(format!("layout-p{}-m{:0w$b}", p, mask, w = p), json!({"kind": "layout", "p": p, "mask": mask, "kmax": kmax, "full": full, "backends": nbe, "seed": seed})));
+            }
+        }
+        // ---- first-appearance patterns
+        let rgs_n = |m: usize| -> usize {
+            match (t, m) {
+                (false, 1) => 6,
+                (false, 2) => 4,
+                (false, _) => 3,
+                (true, 1) => 9,
+                (true, 2) => 6,
+                (true, _) => 4,
+            }
+        };
+        for p in 1..=3usize {
+            for mask in masks_simplest_first(p) {
+                let m = mask.count_ones() as usize;
+                if m == 0 {
+                    continue;
+                }
+                for n in 1..=rgs_n(m) {
+                    jobs.push(Job::new(format!("rgs-p{}-m{:0w$b}-n{}", p, mask, n, w = p), json!({"kind": "rgs", "p": p, "mask": mask, "n": n, "backends": nbe, "seed": seed})));
+                }
+            }
+        }
+        // ---- error clauses
+        let p_err = if t { 6 } else { 4 };
+        for p in 1..=p_err {
+            for mask in masks_simplest_first(p) {
+                if mask == 0 {
+                    continue;
+                }
+                jobs.push(Job::new(format!("unseen-p{}-m{:0w$b}", p, mask, w = p), json!({"kind": "unseen", "p": p, "mask": mask, "kmax": 3, "backends": nbe, "seed": seed})));
+                jobs.push(Job::new(format!("nonint-p{}-m{:0w$b}", p, mask, w = p), json!({"kind": "nonint", "p": p, "mask": mask, "kmax": 3, "backends": nbe, "seed": seed})));
+            }
+        }
+        if t {
+            // up to 6 categories per column (the quantifier's upper end), two DenseMatrix backends
+            for p in 1..=6usize {
+                for mask in masks_simplest_first(p) {
+                    if mask == 0 {
+                        continue;
+                    }
+                    jobs.push(Job::new(format!("layout6-p{}-m{:0w$b}", p, mask, w = p), json!({"kind": "layout", "p": p, "mask": mask, "kmax": 6, "full": 3, "backends": 2, "seed": seed})));
+                }
+            }
+            // wide matrices: every subset for p = 9, 10
+            for p in 9..=10usize {
+                for mask in masks_simplest_first(p) {
+                    jobs.push(Job::new(format!("layout-p{}-m{:0w$b}", p, mask, w = p), json!({"kind": "layout", "p": p, "mask": mask, "kmax": 3, "full": 3, "backends": 2, "seed": seed})));
+                }
+            }
+        }
+        Plan {
+            jobs,
+            budget_s: if t { 2400 } else { 40 },
+            case_deadline_ms: 20_000,
+            floors: vec![
+                ("layout_cases", 50_000),
+                ("plain_column_after_two_categoricals", 5_000),
+                ("adjacent_categoricals", 5_000),
+                ("all_columns_categorical", 500),
+                ("no_categorical_column", 100),
+                ("single_category_column", 5_000),
+                ("first_appearance_not_numeric_order", 5_000),
+                ("index_list_not_sorted", 5_000),
+                ("class_column_follows_non_first_categorical", 5_000),
+                ("class_several_categoricals_other", 5_000),
+                ("rgs_cases", 1_000),
+                ("rgs_four_or_more_categories", 100),
+                ("rgs_category_revisited", 100),
+                ("unseen_rejected", 5_000),
+                ("unseen_integer_cases", 5_000),
+                ("unseen_invalid_cases", 1_000),
+                ("unseen_collapsing_cases", 1_000),
+                ("nonint_rejected", 5_000),
+                ("nonint_negative", 10),
+                ("mapper_states", 2_000),
+                ("mapper_stream_with_repeats", 1_000),
+                ("mapper_first_appearance_not_sorted", 1_000),
+                ("mapper_unseen_letter_exists", 100),
+                ("mapper_extension_by_seen_category", 500),
+            ],
+            bounds: json!({
+                "layout": format!("every p<={}, every subset of categorical columns, every category-count vector in {{1..{}}}^|S|, index list in every order for |S|<={} (else sorted, reversed, rotated, evens-then-odds, first-two-swapped), 3 code schemes x 3 row schemes (n = kmax, kmax+1, 2kmax rows), {} backends", p_all, kmax, full, nbe),
+                "layout_extensions_thorough": if t { "p<=6 with 1..6 categories per column; p=9,10 every subset with 1..3 categories (DenseMatrix f64/f32)" } else { "-" },
+                "first_appearance": format!("p<=3, every non-empty subset, every restricted growth string per categorical column: n<={} (1 col), n<={} (2 cols), n<={} (3 cols)", rgs_n(1), rgs_n(2), rgs_n(3)),
+                "unseen": format!("p<={}: every non-empty subset x k in {{1,2,3}}^|S| x every cell of every categorical column x 12 replacement values (unseen integer codes, codes of the neighbouring column, non-integers, negatives, >65535)", p_err),
+                "non_integer_fit": format!("p<={}: every non-empty subset x k x every cell of every categorical column x 8 fractional offsets", p_err),
+                "mapper_e2": format!("CategoryMapper over every stream of length <={} on {} letters (u16 and String categories), from_category_map for every bijection", if t { 7 } else { 6 }, if t { 4 } else { 3 }),
+                "seed": format!("VERIF_SEED={} selects the code offset / table rotation / plain-value shift of the alphabets", seed),
+            }),
+        }
+    }
+
+    fn run(&self, job: &Job) {
+        match job.kind() {
+            "layout" => run_layout(job),
+            "rgs" => run_rgs(job),
+            "unseen" => run_unseen(job),
+            "nonint" => run_nonint(job),
+            "mapper" => run_mapper_replay(job),
+            other => panic!("unknown job kind {}", other),
+        }
+    }
+
+    fn extra(&self, tier: Tier, _seed: u64) -> Vec<ExtraResult> {
+        let (letters, max_len) = if tier.is_thorough() { (4, 7) } else { (3, 6) };
+        let mut out = Vec::new();
+        for ty in [Ty::U16, Ty::Str] {
+            let model = MapperModel { ty, letters, max_len };
+            let name = format!("category-mapper-{}", ty.name());
+            let a = mc::bfs::search(&name, &model, max_len, 5_000_000);
+            let b = mc::bfs::search(&name, &model, max_len, 5_000_000);
+            assert!(a.states == b.states && a.transitions == b.transitions, "E2 search {} is not deterministic: {} vs {} states", name, a.states, b.states);
+            out.push(a);
+        }
+        out
+    }
+
+    fn rule(&self) -> String {
+        "one E1 execution = one (matrix, categorical index list, backend) run through the real fit (+ transform); non-trivial = at least one categorical column (layout / first-appearance cases) or an error clause exercised; distinct = distinct digest of the returned matrix / error verdict. E2 states = category streams, each judged on the real CategoryMapper built three ways".into()
+    }
+
+    fn assumptions(&self) -> Vec<String> {
+        vec![
+            "category codes are integers in 0..=65535 (the encoder's category type is u16); larger codes are outside the explored domain".into(),
+            "values within 0.0015 of an integer (the neighbourhood of the library's documented 0.001 tolerance) are neither required to be accepted nor to be rejected".into(),
+            "the statement's Ok clause is only checked for transforming the very matrix the encoder was fitted on".into(),
+            "no RNG on the explored paths; HashMap is used by the library for look-ups only (from_category_map sorts by index)".into(),
+        ]
+    }
+
+    fn engine(&self) -> &'static str {
+        "E1 stateless choice-tree exploration of the real OneHotEncoder + E2 explicit-state BFS over category streams on the real CategoryMapper"
+    }
+}
+
 fn main() {
-    eprintln!("MACHINERY-ERROR: harness C18 not built yet");
-    std::process::exit(2);
+    if let Err(e) = mc_sc::check_rng_sites() {
+        eprintln!("MACHINERY-ERROR: {}", e);
+        std::process::exit(2);
+    }
+    mc::main(C18)
 }
